@@ -116,6 +116,13 @@ def cases(tier, seed):
             c = dict(kind=kind, tag=tag, src=src, seed=int(rng.integers(1 << 31)))
             if kind in ('add', 'seq'):
                 other = hg.rand_layered_graph(rng, length, 2)
+                if gd is not None and rng.random() < 0.2:
+                    # the other graph cancels some (or all) terms of this one: a copy with the coefficients of some edges negated
+                    import copy as _copy
+                    other = _copy.deepcopy(gd)
+                    for e in other['edges']:
+                        if rng.random() < 0.6:
+                            e[3] = [[o, -cf] for o, cf in e[3]]
                 for n in other['nodes']:
                     if n[0] == other['term'][0]:
                         n[1] = tq[0]
@@ -203,6 +210,21 @@ class Checker:
         if not ok:
             self.fail(fn, 'consistent', f'after {fn}{what}: is_consistent() is False')
             return False
+        # the library's own dense meaning of the rewritten graph agrees with its symbolic meaning (small graphs only)
+        try:
+            L_ = g.length
+            if 1 <= L_ <= 3 and all(len(w) == L_ for w in p) and not self.qual:       # as_matrix asserts that there are no dangling nodes
+                ids = sorted({o for w in p for o in w} | {o for e in g.edges.values() for o, _ in e.opics} | {0})
+                r_ = np.random.default_rng(len(p) + 7 * L_)
+                opmap = {o: (np.identity(2) if o == 0 else r_.standard_normal((2, 2)) + 1j * r_.standard_normal((2, 2))) for o in ids}
+                ref = hg.poly_dense(p, opmap, L_, 2)
+                for direction in (1, 0):
+                    m = np.asarray(g.as_matrix(opmap, direction))
+                    if m.shape != ref.shape or not np.allclose(m, ref, atol=1e-9 * max(1.0, float(np.linalg.norm(ref)))):
+                        self.fail(fn, 'dense', f'after {fn}{what}: OpGraph.as_matrix(direction={direction}) has shape {m.shape} / deviates from the symbolic meaning')
+                        break
+        except Exception as e:
+            self.fail(fn, 'dense', f'after {fn}{what}: OpGraph.as_matrix raised {type(e).__name__}: {e}')
         return True
 
 
